@@ -305,6 +305,9 @@ func c11Rename(c *Ctx, idx int) {
 	if pr := ref.Parse(text); pr.Status != ref.ParseOK {
 		return
 	}
+	if m := ref.Search(text, doc); m.Unspec && strings.Contains(m.Why, "width beyond") {
+		return
+	}
 	if m := ref.Search(text, doc); m.Unspec && Enumerates(text) {
 		// may depend on the order in which object members are enumerated
 		c.Count("skipped_order_dependent", 1)
